@@ -5,46 +5,27 @@ From Verif Require Import C18.Model C18.Spec C18.Proofs_Vec C18.Proofs_Pass C18.
 Import ListNotations.
 Open Scope Z_scope.
 
-(* ---------------------------------------------------------------- counting source rounds *)
-Lemma count_src_cons prod x t h :
-  count_src prod x (t :: h) = (if was_src prod x t then 1 else 0) + count_src prod x h.
-Proof.
-  unfold count_src, countf. cbn [filter]. destruct (was_src prod x t); cbn [length]; lia.
-Qed.
-Lemma count_src_nonneg prod x h : 0 <= count_src prod x h.
-Proof. unfold count_src, countf. lia. Qed.
-Lemma streak_le_count prod x h : streak_src prod x h <= count_src prod x h.
-Proof.
-  induction h as [|t h IH]; [cbn; unfold count_src, countf; cbn; lia|].
-  rewrite count_src_cons. cbn [streak_src]. destruct (was_src prod x t); [lia|].
-  pose proof (count_src_nonneg prod x h). lia.
-Qed.
-
-Lemma streak_src_nonneg prod x h : 0 <= streak_src prod x h.
-Proof. induction h as [|t h IH]; cbn [streak_src]; [lia|]. destruct (was_src prod x t); lia. Qed.
-Lemma count_src_src prod x t h : was_src prod x t = true -> count_src prod x (t :: h) = 1 + count_src prod x h.
-Proof. intros H. rewrite count_src_cons, H. reflexivity. Qed.
-Lemma streak_src_src prod x t h : was_src prod x t = true -> streak_src prod x (t :: h) = 1 + streak_src prod x h.
-Proof. intros H. cbn [streak_src]. rewrite H. reflexivity. Qed.
-
 (* Everything below is proved for an arbitrary measure [mu] of "how long has node x been a
-   source": non-negative and growing by one in a round in which x is a source. It is
-   instantiated with [count_src] (all earlier source rounds; holds for the code as it is) and
-   with [streak_src] (the immediately preceding source rounds; holds for the repaired variant). *)
+   source" over the sequence of POOL STEPS (node ids and table of one pool of one Balance call,
+   most recent first): non-negative and growing by one in a step in which x is a source. It is
+   instantiated with the number of earlier source steps (holds for the code as it is) and with
+   the length of the run of source steps among the steps that looked at the node (holds for the
+   repaired variant). [kof x]: the ConsecutiveAbnormalities of the pool node x belongs to. *)
 Section Measure.
 Variable c : cfg.
-Variable mu : bool -> Z -> list (list row) -> Z.
+Variable kof : Z -> Z.
+Variable mu : bool -> Z -> list stepT -> Z.
 Hypothesis mu_nonneg : forall prod x h, 0 <= mu prod x h.
-Hypothesis mu_src : forall prod x t h, was_src prod x t = true -> mu prod x (t :: h) = 1 + mu prod x h.
+Hypothesis mu_src : forall prod x (t : stepT) h, was_src prod x (snd t) = true -> mu prod x (t :: h) = 1 + mu prod x h.
 
 (* ---------------------------------------------------------------- one detector *)
 (* the detector of node x (node cache or prod cache) against the rounds seen so far:
    its abnormality counter never exceeds the number of rounds in which the node was a source,
    and it is in the anomaly state only after more than K such rounds *)
-Definition det_inv (prod : bool) (hist : list (list row)) (x : Z) (d : det) : Prop :=
-  dK d = cK c /\
+Definition det_inv (prod : bool) (hist : list stepT) (x : Z) (d : det) : Prop :=
+  dK d = kof x /\
   (dst d = false -> dA d <= mu prod x hist) /\
-  (dst d = true -> cK c + 1 <= mu prod x hist).
+  (dst d = true -> kof x + 1 <= mu prod x hist).
 
 Ltac det_crush :=
   repeat match goal with
@@ -75,17 +56,17 @@ Qed.
 
 (* Mark(false) in a round in which the node is a source; if it ends in the anomaly state the
    node has been a source in at least K earlier rounds *)
-Lemma mark_abn_inv prod h t x d :
-  det_inv prod h x d -> was_src prod x t = true ->
+Lemma mark_abn_inv prod h (t : stepT) x d :
+  det_inv prod h x d -> was_src prod x (snd t) = true ->
   det_inv prod (t :: h) x (mark_abn d) /\
-  (dst (mark_abn d) = true -> cK c <= mu prod x h).
+  (dst (mark_abn d) = true -> kof x <= mu prod x h).
 Proof.
   intros H Hs. apply (cur_inv prod h x) in H. unfold mark_abn.
   set (d' := cur d) in *. pose proof (mu_nonneg prod x h).
   destruct d' as [K Kn st A N]. unfold det_inv in H. cbn [dK dKn dst dA dN] in *.
   destruct H as [H1 [H2 H3]].
-  assert (forall e, det_inv prod (t :: h) x e -> (dst e = true -> cK c <= mu prod x h) ->
-                    det_inv prod (t :: h) x (cur e) /\ (dst (cur e) = true -> cK c <= mu prod x h)) as Hcur.
+  assert (forall e, det_inv prod (t :: h) x e -> (dst e = true -> kof x <= mu prod x h) ->
+                    det_inv prod (t :: h) x (cur e) /\ (dst (cur e) = true -> kof x <= mu prod x h)) as Hcur.
   { intros e He Hg. split; [apply cur_inv; exact He|].
     unfold cur, set_ok. destruct (dst e) eqn:Ed; cbn [andb].
     - destruct (dKn e <? dN e); cbn [dst]; [discriminate|rewrite Ed; exact Hg].
@@ -118,7 +99,7 @@ Proof.
       * exact IH.
 Qed.
 
-Definition dmap_inv (prod : bool) (h : list (list row)) (m : dmap) : Prop :=
+Definition dmap_inv (prod : bool) (h : list stepT) (m : dmap) : Prop :=
   forall x d, dget x m = Some d -> det_inv prod h x d.
 
 Lemma dupd_inv prod h f y m :
@@ -167,7 +148,7 @@ Proof.
   destruct (balance_pods c prod' tg t st2 resv1 dm2) as [[evs2 st3] dm3]. exact IH.
 Qed.
 
-Definition dstate_inv (h : list (list row)) (ds : dstate) : Prop :=
+Definition dstate_inv (h : list stepT) (ds : dstate) : Prop :=
   dmap_inv false h (fst ds) /\ dmap_inv true h (snd ds).
 
 Lemma efs_dm_inv h tbl abn pabn ds :
@@ -188,8 +169,9 @@ Proof.
 Qed.
 
 (* ---------------------------------------------------------------- filterRealAbnormalNodes *)
-Lemma filter_abnormal_inv prod h t src :
-  NoDup (map rid src) -> (forall r, In r src -> was_src prod (rid r) t = true) ->
+Lemma filter_abnormal_inv prod h (t : stepT) src :
+  NoDup (map rid src) -> (forall r, In r src -> was_src prod (rid r) (snd t) = true) ->
+  (forall r, In r src -> kof (rid r) = cK c) ->
   forall m,
     (forall x d, dget x m = Some d ->
        (In x (map rid src) -> det_inv prod h x d) /\
@@ -197,7 +179,7 @@ Lemma filter_abnormal_inv prod h t src :
     dmap_inv prod (t :: h) (snd (filter_abnormal c src m)) /\
     forall r, In r (fst (filter_abnormal c src m)) -> cK c <= mu prod (rid r) h.
 Proof.
-  induction src as [|a s IH]; intros Hnd Hsrc m Hm; cbn [filter_abnormal].
+  induction src as [|a s IH]; intros Hnd Hsrc Hk m Hm; cbn [filter_abnormal].
   - split; [|intros r []]. intros x d Hd. apply (Hm x d Hd). intros [].
   - cbn [map] in Hnd. inversion Hnd as [|? ? Hni Hnd']; subst.
     set (d0 := match dget (rid a) m with Some d => d | None => mkDet (cK c) (cKn c) false 0 0 end).
@@ -205,7 +187,7 @@ Proof.
     { unfold d0. destruct (dget (rid a) m) as [d|] eqn:E.
       - apply (Hm _ _ E). left; reflexivity.
       - unfold det_inv. cbn [dK dst dA]. pose proof (mu_nonneg prod (rid a) h).
-        split; [reflexivity|]. split; intros; [lia|discriminate]. }
+        split; [symmetry; apply Hk; left; reflexivity|]. split; intros; [lia|discriminate]. }
     destruct (mark_abn_inv prod h t (rid a) d0 Hd0 (Hsrc a (or_introl eq_refl))) as [Hd1 Hg].
     set (d1 := mark_abn d0) in *.
     assert (forall x d, dget x (dset (rid a) d1 m) = Some d ->
@@ -217,25 +199,28 @@ Proof.
       - apply Z.eqb_neq in E. intros H. destruct (Hm x d H) as [H1 H2]. split.
         + intros Hin. apply H1. right. exact Hin.
         + intros Hn. apply H2. cbn [map In]. intros [Heq|Hin]; [apply E; exact Heq|apply Hn; exact Hin]. }
-    assert (forall r, In r s -> was_src prod (rid r) t = true) as Hsrc'
+    assert (forall r, In r s -> was_src prod (rid r) (snd t) = true) as Hsrc'
       by (intros r Hr; apply Hsrc; right; exact Hr).
-    destruct (IH Hnd' Hsrc' (dset (rid a) d1 m) Hm1) as [HI1 HI2].
+    assert (forall r, In r s -> kof (rid r) = cK c) as Hk'
+      by (intros r Hr; apply Hk; right; exact Hr).
+    destruct (IH Hnd' Hsrc' Hk' (dset (rid a) d1 m) Hm1) as [HI1 HI2].
     destruct (filter_abnormal c s (dset (rid a) d1 m)) as [abn m']. cbn [fst snd] in *.
     split; [exact HI1|]. intros r. destruct (dst d1) eqn:E; cbn [In].
-    + intros [<-|Hr]; [apply Hg; reflexivity|apply HI2; exact Hr].
+    + intros [<-|Hr]; [rewrite <- (Hk a (or_introl eq_refl)); apply Hg; reflexivity|apply HI2; exact Hr].
     + apply HI2.
 Qed.
 
-Lemma real_abnormal_inv prod h t src m :
-  NoDup (map rid src) -> (forall r, In r src -> was_src prod (rid r) t = true) ->
+Lemma real_abnormal_inv prod h (t : stepT) src m :
+  NoDup (map rid src) -> (forall r, In r src -> was_src prod (rid r) (snd t) = true) ->
+  (forall r, In r src -> kof (rid r) = cK c) ->
   (forall x d, dget x m = Some d ->
      (In x (map rid src) -> det_inv prod h x d) /\
      (~ In x (map rid src) -> det_inv prod (t :: h) x d)) ->
   dmap_inv prod (t :: h) (snd (real_abnormal c src m)) /\
   (gating c = true -> forall r, In r (fst (real_abnormal c src m)) -> cK c <= mu prod (rid r) h).
 Proof.
-  intros Hnd Hsrc Hm. unfold real_abnormal. destruct (gating c) eqn:G.
-  - destruct (filter_abnormal_inv prod h t src Hnd Hsrc m Hm) as [H1 H2].
+  intros Hnd Hsrc Hk Hm. unfold real_abnormal. destruct (gating c) eqn:G.
+  - destruct (filter_abnormal_inv prod h t src Hnd Hsrc Hk m Hm) as [H1 H2].
     split; [exact H1|intros _; exact H2].
   - cbn [fst snd]. split; [|discriminate]. intros x d Hd. destruct (Hm x d Hd) as [A B].
     destruct (in_dec Z.eq_dec x (map rid src)) as [Hin|Hn]; [|apply B; exact Hn].
@@ -256,24 +241,24 @@ Proof.
   rewrite (find_row_in tbl r Hnd Hr). exact Hc.
 Qed.
 
-Definition gate_mu (h : list (list row)) (tbl : list row) (evs : list ev) : Prop :=
+Definition gate_mu (h : list stepT) (tbl : list row) (evs : list ev) : Prop :=
   gating c = true -> forall e, In e evs -> cK c <= mu (ev_prod tbl e) (fst e) h.
 Lemma gate_mu_nil h tbl : gate_mu h tbl [].
 Proof. intros _ e []. Qed.
 
 (* what must hold of the detector caches when a round over [tbl] starts: the detectors of this
    round's sources are up to date with the earlier rounds [h], all others already with [tbl :: h] *)
-Definition pre_inv (tbl : list row) (h : list (list row)) (ds : dstate) : Prop :=
+Definition pre_inv (ids : list Z) (tbl : list row) (h : list stepT) (ds : dstate) : Prop :=
   forall (prod : bool) x d, dget x (if prod then snd ds else fst ds) = Some d ->
     (In x (map rid (filter (has_cls (src_cls prod)) tbl)) -> det_inv prod h x d) /\
-    (~ In x (map rid (filter (has_cls (src_cls prod)) tbl)) -> det_inv prod (tbl :: h) x d).
+    (~ In x (map rid (filter (has_cls (src_cls prod)) tbl)) -> det_inv prod ((ids, tbl) :: h) x d).
 
-Lemma process_pool_gate tbl psize ds h :
-  tbl_wf c tbl -> pre_inv tbl h ds ->
-  dstate_inv (tbl :: h) (snd (process_pool c tbl psize ds)) /\
+Lemma process_pool_gate ids tbl psize ds h :
+  tbl_wf c tbl -> (forall r, In r tbl -> kof (rid r) = cK c) -> pre_inv ids tbl h ds ->
+  dstate_inv ((ids, tbl) :: h) (snd (process_pool c tbl psize ds)) /\
   gate_mu h tbl (fst (process_pool c tbl psize ds)).
 Proof.
-  intros Hwf Hpre. unfold process_pool.
+  intros Hwf Hkof Hpre. unfold process_pool.
   pose proof (Hpre false) as Hn. pose proof (Hpre true) as Hp. cbn [src_cls] in Hn, Hp.
   destruct (is_nil (filter (has_cls cHigh) tbl) && is_nil (filter (has_cls cProdHigh) tbl)) eqn:E1.
   { apply andb_true_iff in E1. destruct E1 as [Ea Eb]. apply is_nil_true in Ea. apply is_nil_true in Eb.
@@ -281,8 +266,10 @@ Proof.
     split; [|apply gate_mu_nil]. split; intros x d Hd; [apply (Hn x d Hd)|apply (Hp x d Hd)]; intros []. }
   destruct (src_filter_props tbl false Hwf) as [Hnd1 Hs1].
   destruct (src_filter_props tbl true Hwf) as [Hnd2 Hs2]. cbn [src_cls] in *.
-  destruct (real_abnormal_inv false h tbl _ (fst ds) Hnd1 Hs1 Hn) as [Hn1 Hg1].
-  destruct (real_abnormal_inv true h tbl _ (snd ds) Hnd2 Hs2 Hp) as [Hp1 Hg2].
+  assert (forall k r, In r (filter (has_cls k) tbl) -> kof (rid r) = cK c) as Hkf
+    by (intros k r Hr; apply Hkof; apply filter_In in Hr; apply Hr).
+  destruct (real_abnormal_inv false h (ids, tbl) _ (fst ds) Hnd1 Hs1 (Hkf cHigh) Hn) as [Hn1 Hg1].
+  destruct (real_abnormal_inv true h (ids, tbl) _ (snd ds) Hnd2 Hs2 (Hkf cProdHigh) Hp) as [Hp1 Hg2].
   pose proof (real_abnormal_in c (filter (has_cls cHigh) tbl) (fst ds)) as Ha.
   pose proof (real_abnormal_in c (filter (has_cls cProdHigh) tbl) (snd ds)) as Hpa.
   destruct (real_abnormal c (filter (has_cls cHigh) tbl) (fst ds)) as [abn dn].
@@ -294,8 +281,8 @@ Proof.
             && is_nil (filter (has_cls cBothLow) tbl)).
   { cbn [fst snd]. split; [split; assumption|apply gate_mu_nil]. }
   set (dn' := reset_nodes _ (reset_nodes _ dn)). set (dp' := reset_nodes _ dp).
-  assert (dmap_inv false (tbl :: h) dn') as Hn2 by (unfold dn'; do 2 apply reset_nodes_inv; exact Hn1).
-  assert (dmap_inv true (tbl :: h) dp') as Hp2 by (unfold dp'; apply reset_nodes_inv; exact Hp1).
+  assert (dmap_inv false ((ids, tbl) :: h) dn') as Hn2 by (unfold dn'; do 2 apply reset_nodes_inv; exact Hn1).
+  assert (dmap_inv true ((ids, tbl) :: h) dp') as Hp2 by (unfold dp'; apply reset_nodes_inv; exact Hp1).
   destruct (_ <=? cN c).
   { cbn [fst snd]. split; [split; assumption|apply gate_mu_nil]. }
   destruct (_ =? psize).
@@ -307,7 +294,7 @@ Proof.
   assert (forall r, In r pabn' -> In r tbl /\ rcls r = cProdHigh) as Hpabn.
   { intros r Hr. apply sort_by_in in Hr. apply Hpa in Hr. apply filter_In in Hr.
     destruct Hr as [Hr Hc]. split; [exact Hr|apply has_cls_true; exact Hc]. }
-  pose proof (efs_dm_inv (tbl :: h) tbl abn' pabn' (dn', dp') (conj Hn2 Hp2)) as Hinv.
+  pose proof (efs_dm_inv ((ids, tbl) :: h) tbl abn' pabn' (dn', dp') (conj Hn2 Hp2)) as Hinv.
   assert (gate_mu h tbl (fst (evict_from_sources c tbl abn' pabn' (dn', dp')))) as Hgate.
   { destruct (cdry c) eqn:Hd.
     - rewrite (efs_dry c tbl abn' pabn' (dn', dp') Hd). apply gate_mu_nil.
@@ -320,129 +307,4 @@ Proof.
   split; [|exact Hgate]. split; apply mark_nodes_normal_inv; assumption.
 Qed.
 
-(* ---------------------------------------------------------------- whole histories *)
-Fixpoint hist_mu (tbls : list (list row * Z)) (obs : list (list ev)) (h : list (list row)) : Prop :=
-  match tbls, obs with
-  | [], [] => True
-  | (tbl, psize) :: rt, evs :: ot =>
-    round_holds c tbl psize evs /\ gate_mu h tbl evs /\ hist_mu rt ot (tbl :: h)
-  | _, _ => False
-  end.
-
-Variable fx : bool.
-Hypothesis Hpre : forall tbl h ds, tbl_wf c tbl -> dstate_inv h ds -> pre_inv tbl h (pre_round fx tbl ds).
-
-Theorem run_gen_mu ns : forall rounds ds h,
-  wf_rounds rounds = true -> dstate_inv h ds ->
-  hist_mu (tables c ns rounds) (map fst (run_gen fx c ns rounds ds)) h.
-Proof.
-  induction rounds as [|rs t IH]; intros ds h Hwf Hinv; cbn [run_gen tables map hist_mu]; [exact I|].
-  unfold wf_rounds in Hwf. cbn [forallb] in Hwf. apply andb_true_iff in Hwf. destruct Hwf as [Hw1 Hw2].
-  pose proof (table_wf c ns rs Hw1) as Htw.
-  unfold balance_gen.
-  pose proof (process_pool_round c (table c ns rs) (pool_size c ns rs) (pre_round fx (table c ns rs) ds) Htw) as Hr.
-  destruct (process_pool_gate (table c ns rs) (pool_size c ns rs) (pre_round fx (table c ns rs) ds) h Htw
-              (Hpre _ _ _ Htw Hinv)) as [Hi Hg].
-  destruct (process_pool c (table c ns rs) (pool_size c ns rs) (pre_round fx (table c ns rs) ds)) as [evs ds'].
-  cbn [map fst snd hist_mu] in *.
-  split; [exact Hr|]. split; [exact Hg|]. apply IH; assumption.
-Qed.
-
-Lemma dstate_inv_init : dstate_inv [] ([], []).
-Proof. split; intros x d H; discriminate. Qed.
 End Measure.
-
-(* ---------------------------------------------------------------- the repaired variant's forget *)
-Lemma existsb_eqb_in x l : existsb (Z.eqb x) l = true <-> In x l.
-Proof.
-  rewrite existsb_exists. split.
-  - intros [y [Hy E]]. apply Z.eqb_eq in E. subst y. exact Hy.
-  - intros H. exists x. split; [exact H|apply Z.eqb_refl].
-Qed.
-
-Lemma dget_forget src m x :
-  dget x (forget src m) = if existsb (Z.eqb x) (map rid src) then dget x m else None.
-Proof.
-  unfold forget. induction m as [|[k d] t IH]; cbn [filter dget fst].
-  - destruct (existsb _ _); reflexivity.
-  - destruct (existsb (Z.eqb k) (map rid src)) eqn:Ek; cbn [dget].
-    + destruct (k =? x) eqn:E; [|exact IH]. apply Z.eqb_eq in E. subst k. rewrite Ek. reflexivity.
-    + rewrite IH. destruct (k =? x) eqn:E; [|reflexivity]. apply Z.eqb_eq in E. subst k. rewrite Ek. reflexivity.
-Qed.
-
-Lemma dget_forget_some src m x d : dget x (forget src m) = Some d -> In x (map rid src) /\ dget x m = Some d.
-Proof.
-  rewrite dget_forget. destruct (existsb (Z.eqb x) (map rid src)) eqn:E; [|discriminate].
-  intros H. split; [apply existsb_eqb_in; exact E|exact H].
-Qed.
-
-(* ---------------------------------------------------------------- instance 1: all earlier source rounds *)
-Lemma count_det_mono c prod h t x d :
-  det_inv c count_src prod h x d -> det_inv c count_src prod (t :: h) x d.
-Proof.
-  unfold det_inv. rewrite count_src_cons. intros [H1 [H2 H3]].
-  split; [exact H1|]. split; intros H; [specialize (H2 H)|specialize (H3 H)];
-    destruct (was_src prod x t); lia.
-Qed.
-
-Lemma count_pre c fx tbl h ds :
-  tbl_wf c tbl -> dstate_inv c count_src h ds -> pre_inv c count_src tbl h (pre_round fx tbl ds).
-Proof.
-  intros _ [Hn Hp] prod x d Hd.
-  assert (det_inv c count_src prod h x d) as H.
-  { destruct fx; cbn [pre_round fst snd] in Hd.
-    - destruct prod; apply dget_forget_some in Hd; destruct Hd as [_ Hd]; [apply Hp|apply Hn]; exact Hd.
-    - destruct prod; [apply Hp|apply Hn]; exact Hd. }
-  split; intros _; [exact H|apply count_det_mono; exact H].
-Qed.
-
-Lemma hist_mu_count c : forall tbls obs h, hist_mu c count_src tbls obs h <-> hist_holds c tbls obs h.
-Proof.
-  induction tbls as [|[tbl ps] t IH]; intros [|evs ot] h; cbn [hist_mu hist_holds]; try tauto.
-  rewrite IH. unfold gate_mu, gate_holds. tauto.
-Qed.
-
-(* both variants satisfy the property with the counting gate *)
-Theorem main_holds_gen fx c ns rounds :
-  wf_rounds rounds = true -> C18_holds c ns rounds (map fst (run_gen fx c ns rounds ([], []))).
-Proof.
-  intros H. apply hist_mu_count.
-  apply (run_gen_mu c count_src count_src_nonneg count_src_src fx (count_pre c fx) ns rounds ([], []) [] H).
-  apply dstate_inv_init.
-Qed.
-
-Theorem main_holds c ns rounds :
-  wf_rounds rounds = true -> C18_holds c ns rounds (map fst (run c ns rounds ([], []))).
-Proof. apply main_holds_gen. Qed.
-
-(* ---------------------------------------------------------------- instance 2: consecutive rounds *)
-Lemma streak_pre c tbl h ds :
-  tbl_wf c tbl -> dstate_inv c streak_src h ds -> pre_inv c streak_src tbl h (pre_round true tbl ds).
-Proof.
-  intros _ [Hn Hp] prod x d Hd. cbn [pre_round fst snd] in Hd.
-  destruct prod; apply dget_forget_some in Hd; destruct Hd as [Hin Hd]; cbn [src_cls];
-    (split; [intros _|intros Hn'; contradiction]); [apply Hp|apply Hn]; exact Hd.
-Qed.
-
-Fixpoint strict_hist_holds (c : cfg) (tbls : list (list row * Z)) (obs : list (list ev))
-  (h : list (list row)) : Prop :=
-  match tbls, obs with
-  | (tbl, _) :: rt, evs :: ot => strict_gate_holds c h tbl evs /\ strict_hist_holds c rt ot (tbl :: h)
-  | _, _ => True
-  end.
-
-Lemma hist_mu_streak c : forall tbls obs h, hist_mu c streak_src tbls obs h -> strict_hist_holds c tbls obs h.
-Proof.
-  induction tbls as [|[tbl ps] t IH]; intros [|evs ot] h; cbn [hist_mu strict_hist_holds]; try tauto.
-  intros [_ [H1 H2]]. split; [exact H1|apply IH; exact H2].
-Qed.
-
-(* the repaired variant: evicted from only after K immediately preceding source rounds *)
-Theorem strict_holds_fixed c ns rounds :
-  wf_rounds rounds = true ->
-  strict_hist_holds c (tables c ns rounds) (map fst (run_gen true c ns rounds ([], []))) [].
-Proof.
-  intros H. apply hist_mu_streak.
-  apply (run_gen_mu c streak_src streak_src_nonneg streak_src_src true (streak_pre c) ns rounds ([], []) [] H).
-  apply dstate_inv_init.
-Qed.
